@@ -103,7 +103,9 @@ func c03WideSpecs(c *Ctx) []c03WideSpec {
 
 func c03RunWideSets(c *Ctx) {
 	nEnc := c.Scale(16, 40)
-	for _, sp := range c03WideSpecs(c) {
+	specs := c03WideSpecs(c)
+	c03AcceptTies(c, specs)
+	for _, sp := range specs {
 		rt := ring.Standard
 		if sp.ci {
 			rt = ring.ConjugateInvariant
@@ -156,6 +158,60 @@ func c03ProbeRejection(c *Ctx, sp c03WideSpec, lit rlwe.ParametersLiteral) {
 	}
 	c.Probe("unextendable_bound_rejected", fmt.Sprintf("logN=%d logQ=%s logP=%s xs=%s xe=%s", sp.logN, IVec(sp.logQ), IVec(sp.logP),
 		c03DistLabel(sp.xs), c03DistLabel(sp.xe)), "C03-unextendable-bound-accepted", detail)
+}
+
+func c03AbsBound(d ring.DistributionParameters) float64 {
+	if g, ok := d.(ring.DiscreteGaussian); ok {
+		return g.Bound
+	}
+	return 1
+}
+
+// c03AcceptTie: the acceptance rule of NewParameters for the distribution bounds (fix C03-10) as a tie with the
+// model (`RQ.acceptsBounds`): the real outcome of NewParametersFromLiteral on explicit primes vs the model's answer
+// from ⌊2·AbsBound⌋ of Xe and Xs, Q[0] and the presence of P.
+func c03AcceptTie(c *Ctx, logN int, ci bool, q, p []uint64, xs, xe ring.DistributionParameters) {
+	rt := ring.Standard
+	if ci {
+		rt = ring.ConjugateInvariant
+	}
+	_, err := rlwe.NewParametersFromLiteral(rlwe.ParametersLiteral{LogN: logN, Q: q, P: p, Xs: xs, Xe: xe, RingType: rt})
+	out := "accepted"
+	if err != nil && !strings.Contains(err.Error(), "warning") {
+		out = "rejected"
+	}
+	fl := func(x float64) string { return c03BigBound(2 * x).String() }
+	c.Emit(fmt.Sprintf("accept n=%d ci=%d q=%s p=%s maxl=%d xe=- be2=%s bs2=%s", 1<<logN, c03B2i(ci), Vec(q), Vec(p), len(q)-1,
+		fl(c03AbsBound(xe)), fl(c03AbsBound(xs))), out)
+	c.Count("op:accept")
+	c.Count("accept:" + out)
+}
+
+// c03AcceptTies: the wide specs, plus boundary cases around 2·bound = Q[0] (on primes below 2^53, where the
+// float64 comparison of the Go code is exact).
+func c03AcceptTies(c *Ctx, specs []c03WideSpec) {
+	for _, sp := range specs {
+		lnr := sp.logN + 1
+		if sp.ci {
+			lnr = sp.logN + 2
+		}
+		q, p, err := rlwe.GenModuli(lnr, sp.logQ, sp.logP)
+		if err != nil {
+			continue
+		}
+		c03AcceptTie(c, sp.logN, sp.ci, q, p, sp.xs, sp.xe)
+		if q[0] >= 1<<52 {
+			continue
+		}
+		h := float64(q[0]) / 2 // q[0] odd: k + 0.5, exact
+		tern := ring.Ternary{P: 2 / 3.0}
+		for _, b := range []float64{h, h - 0.5, h + 0.5, h - 1, 2 * h, 19.2} {
+			g := ring.DiscreteGaussian{Sigma: 3.2, Bound: b}
+			c03AcceptTie(c, sp.logN, sp.ci, q, p, tern, g) // wide error
+			c03AcceptTie(c, sp.logN, sp.ci, q, p, g, tern) // wide secret
+			c03AcceptTie(c, sp.logN, sp.ci, q, nil, tern, g)
+		}
+	}
 }
 
 func c03BigBound(x float64) *big.Int {
